@@ -571,7 +571,7 @@ pub fn exec(s: &Script, st: &mut Stats) -> Result<RunInfo, Violation> {
         }
         // the crate's own decoder with a ring of exactly the declared size
         let ring = vec![0u8; declared];
-        let ccfg = crate::dec::CoreCfg { zlib: true, ring: Some(declared), ring_init: &ring, flat_cap: 0, hasmore: 0, extra_flags: 0, canary: false, probe: false, expect: plain, expect_exact: true, tail_cap: plain.len() / declared + 8, clause_prefix: "C11", snap: None, adler_probe: false, post_done: false };
+        let ccfg = crate::dec::CoreCfg { zlib: true, ring: Some(declared), ring_init: &ring, flat_cap: 0, hasmore: 0, extra_flags: 0, canary: false, probe: false, expect: plain, expect_exact: true, tail_cap: plain.len() / declared + 8, clause_prefix: "C11", snap: None, adler_probe: false, post_done: false, prelude: None };
         let r = crate::dec::run_core(&run.out, &ccfg, &[], st)?;
         if r.term != crate::dec::Term::Done || r.out != plain {
             return viol("C11.window_limited_ring_decodes", format!("crate decoder with a {}-byte ring ended with {:?} after {} of {} bytes", declared, r.term, r.out.len(), plain.len()));
